@@ -7,7 +7,7 @@ EXPLANATION = ("Decides the lock-scope premises that make (specification, global
                "interleaving: R12.1 every call site reaching log::set_max_level inside the function that takes the "
                "specification write lock executes while that RwLockWriteGuard is must-held and after update_from; "
                "R12.2 the level handed to the gate derives from max_level() of the same specification that update_from stores; "
-               "R12.3 closed set of callers of the gate; R12.4 no user callback under the write guard. R12.1 also: every path after update_from sets the gate (no conditional update) and the storing function does not read log::max_level(). R12.5 'one specification as a whole': update_from replaces every field (shared with R02.6).")
+               "R12.3 closed set of callers of the gate; R12.4 no user callback under the write guard. R12.1 also: every path after update_from sets the gate (no conditional update) and the storing function does not read log::max_level(). R12.5 'one specification as a whole': update_from replaces every field (shared with R02.6). R12.6 the gate installed with a specification covers it: max(spec level, every writer's ceiling) (shared with R02.4).")
 ASSUMPTIONS = ["RwLock write guards serialise their critical sections (std)",
                "Logger::build runs before the handle is shared (checked: allow-listed entry)"]
 NOT_DECIDED = ["which of the concurrently submitted specifications wins", "fairness"]
